@@ -645,7 +645,11 @@ func c13Client(r *Run, m *ServerModel, ev *sizeEval, needW, needR int64) {
 				for _, p := range fa.St.Paths {
 					_ = p
 				}
-				okG = fa.St.holds("m > msgDotLRegistry.largestFixedSize", true)
+				pn := ""
+				if ps := wm.Decl.Type.Params.List; len(ps) == 1 && len(ps[0].Names) == 1 {
+					pn = ps[0].Names[0].Name
+				}
+				okG = pn != "" && fa.St.holds(pn+" > msgDotLRegistry.largestFixedSize", true)
 			}
 		}
 		r.check(okG, "r4", "WithMessageSize rejects sizes without room for a payload", wm.Decl.Pos(), "m ≤ largestFixedSize is refused", "WithMessageSize accepts m ≤ largestFixedSize: messageSize − largestFixedSize underflows")
